@@ -231,14 +231,20 @@ KvClose ==
 (* ---- write(fn, df, append=True) on a 'simple' file ---- *)
 (* ParquetFile(fn) parses the footer a reader finds; write_simple then opens 'rb+' *)
 
-AppBegin(k, failg, failc) ==
+(* an append the library refuses before touching the file: different columns, file scheme, partitioning ... *)
+AppRefuse(kind) ==
+  /\ Idle /\ nops < MaxOps /\ ~isMeta
+  /\ nops' = nops + 1 /\ op' = [kind |-> "refuse", why |-> kind] /\ last' = "raised" /\ pc' = "idle" /\ pos' = -1
+  /\ UNCHANGED <<file, isMeta, com, rgext, nrg>>
+
+AppBegin(k, failg, failc, why) ==
   \* k new row groups; the write raises when it reaches chunk (failg, failc); failg = 0: no failure
   /\ Idle /\ nops < MaxOps /\ ~isMeta
   /\ nops' = nops + 1
   /\ LET found == ReaderFinds(file) IN
      IF found = {}
      THEN Raise /\ UNCHANGED <<file, isMeta, com, rgext, nrg>>
-     ELSE /\ op' = [kind |-> "app", k |-> k, failg |-> failg, failc |-> failc,
+     ELSE /\ op' = [kind |-> "app", k |-> k, failg |-> failg, failc |-> failc, why |-> why,
                     fmd |-> CHOOSE c \in found : TRUE,
                     g |-> 1, c |-> 1, newrgs |-> <<>>, saved |-> <<>>, savedAt |-> 0]
           /\ pc' = "app_tail" /\ pos' = 0
@@ -318,13 +324,17 @@ DoKvBegin        == EnableKv /\ \E u \in Updates : \E ord \in 0..1 :
                        /\ NonTrivialUpd(u) /\ (ord = 1 => Cardinality(Mentioned(u)) >= 2) /\ KvBegin(u, ord)
 DoKvWriteFooter  == pc = "kv_write" /\ KvWriteFooter(CSize(KvNewContent))
 DoAppBegin       == EnableAppend /\ \E k \in 0..MaxNewRgs : \E fg \in 0..k : \E fc \in 1..NCols :
-                       (fg = 0 => fc = 1) /\ (fg # 0 => EnableFail) /\ AppBegin(k, fg, fc)
+                       \E why \in {"none", "encode", "codec"} :
+                       /\ (fg = 0 => fc = 1) /\ (fg # 0 => EnableFail) /\ (fg = 0 <=> why = "none")
+                       /\ (why = "codec" => fg = 1)      \* an unknown codec is met in the first row group
+                       /\ AppBegin(k, fg, fc, why)
+DoAppRefuse      == EnableAppend /\ EnableFail /\ \E kind \in {"columns", "scheme"} : AppRefuse(kind)
 DoAppWriteChunk  == \E sz \in ChunkSizes : AppWriteChunk(sz)
 DoAppWriteFooter == pc = "app_rgs" /\ op.g > op.k /\ AppWriteFooter(CSize(AppNewContent))
 
 Next ==
   \/ DoKvBegin \/ KvTail \/ KvParse \/ DoKvWriteFooter \/ KvWriteLen \/ KvWriteMagic \/ KvTruncate \/ KvClose
-  \/ DoAppBegin \/ AppTail \/ DoAppWriteChunk \/ AppFail
+  \/ DoAppBegin \/ DoAppRefuse \/ AppTail \/ DoAppWriteChunk \/ AppFail
   \/ DoAppWriteFooter \/ AppWriteLen \/ AppWriteMagic \/ AppTruncate \/ AppClose
 
 Spec == Init /\ [][Next]_vars
